@@ -15,6 +15,10 @@ import multiprocessing as mp
 from .model import LIB_DIRS, AnalysisError
 
 
+# frozen minimum detection ratio of the AST-computed mutants per property (measured on the pinned tree minus a margin)
+AUTO_FLOOR = {}
+
+
 class Case:
     def __init__(self, cid, relpath, old, new, rule=None, where=None, benign=False, count=1, note='', expect_error=False, more=()):
         self.cid, self.relpath, self.old, self.new = cid, relpath, old, new
@@ -109,7 +113,95 @@ def run_for(prop, root, seed=0, jobs=16):
     }
     for t in table:
         print(f"selftest {t['case']:34s} {t['kind']:11s} {t['status']:12s} {t['detail'][:110]}")
+    auto = auto_mutants(prop, root, seed)
+    extra.update(auto)
+    a = auto['auto_mutants']
+    print(f"auto-mutants: {a['mutants_run']} of {a['mutation_points']} points run, {a['reported_as_violation']} violations, {a['reported_as_analysis_error']} analysis errors, {a['survived']} survived (detection {a['detection_ratio']})")
+    floor = AUTO_FLOOR.get(prop)
+    if floor is not None and a['detection_ratio'] < floor:
+        fails.append(f"auto-mutant detection ratio {a['detection_ratio']} fell below the frozen floor {floor}")
     return extra, fails
+
+
+def _run_auto(args):
+    prop, root, relpath, source, item = args
+    from . import runner, mutate
+
+    fname, op = item[0], item[1]
+    made = mutate.realise(source, item)
+    if made is None:
+        return (relpath, fname, op, 'not applicable', 'skipped', '')
+    desc, src = made
+
+    tmp = tempfile.mkdtemp(prefix='pysdc_sa_')
+    try:
+        _copy_tree(root, tmp)
+        with open(os.path.join(tmp, relpath), 'w') as fh:
+            fh.write(src)
+        try:
+            runs = runner.run_property(prop, tmp, 'quick', 0)
+        except AnalysisError as e:
+            return (relpath, fname, op, desc, 'analysis-error', str(e)[:100])
+        except Exception as e:  # a mutant may break the checker's own assumptions: count as analysis error
+            return (relpath, fname, op, desc, 'analysis-error', f'{type(e).__name__}: {e}'[:100])
+        kf, viol = runner.classify(prop, runs)
+        if viol:
+            return (relpath, fname, op, desc, 'violation', f'{viol[0].rule} :: {viol[0].construct}'[:120])
+        return (relpath, fname, op, desc, 'survived', '')
+    finally:
+        shutil.rmtree(tmp, ignore_errors=True)
+
+
+def auto_mutants(prop, root, seed=0, cap=400, jobs=16):
+    """AST-computed single-point mutants of every function the rules of `prop` analysed on the clean tree."""
+    from . import runner, mutate
+
+    runs = runner.run_property(prop, root, 'quick', seed)
+    by_file = {}
+    for rr in runs:
+        for w in rr.analysed['functions']:
+            if ':' not in w:
+                continue
+            rel, fn = w.split(':', 1)
+            if '/' in fn or ' ' in fn:
+                continue
+            by_file.setdefault(rel, set()).add(fn)
+    plans = []
+    sources = {}
+    for rel, names in sorted(by_file.items()):
+        path = os.path.join(root, rel)
+        if not os.path.isfile(path):
+            continue
+        with open(path) as fh:
+            sources[rel] = fh.read()
+        for item in mutate.plan(sources[rel], names):
+            plans.append((rel, item))
+    total = len(plans)
+    import random
+
+    rnd = random.Random(seed)
+    cap = int(os.environ.get('VERIF_MUTANTS', cap))
+    if len(plans) > cap:
+        plans = rnd.sample(plans, cap)
+    jobs_ = [(prop, root, rel, sources[rel], item) for rel, item in plans]
+    with mp.Pool(min(jobs, max(1, len(jobs_)))) as pool:
+        res = pool.map(_run_auto, jobs_, chunksize=2)
+    res = [r for r in res if r[4] != 'skipped']
+    by_op = {}
+    for rel, fname, op, desc, status, detail in res:
+        d = by_op.setdefault(op, {'violation': 0, 'analysis-error': 0, 'survived': 0})
+        d[status] += 1
+    detected = sum(1 for r in res if r[4] != 'survived')
+    surv = [{'file': r[0], 'function': r[1], 'mutation': r[3]} for r in res if r[4] == 'survived']
+    return {
+        'auto_mutants': {
+            'functions_mutated': sum(len(v) for v in by_file.values()), 'mutation_points': total, 'mutants_run': len(res), 'sampled_with_seed': seed if total > cap else None,
+            'reported_as_violation': sum(1 for r in res if r[4] == 'violation'), 'reported_as_analysis_error': sum(1 for r in res if r[4] == 'analysis-error'),
+            'survived': len(surv), 'detection_ratio': round(detected / max(1, len(res)), 3), 'by_operator': by_op,
+            'survivors': surv[:60],
+            'note': 'survivors are equivalent mutants, mutations outside the structural clauses of the property (logging, messages, unrelated branches of an analysed function) or gaps; they are listed, not hidden',
+        }
+    }
 
 
 def main():
